@@ -105,7 +105,24 @@ def c10_sparse_duplicates_canonicalised():
               f"requesting H_tilde[0, 0, 1] rewrote the caller's CSR buffers of a perturbation block (indptr {before[2].tolist()} -> {buf[2].tolist()})")
 
 
+def c19_view_aliases_callers_list():
+    """A list/slice view keeps the caller's index list alive: mutating the list afterwards changes the view."""
+    from pymablock.series import BlockSeries
+
+    s = BlockSeries(eval=lambda i, j, k: (int(i), int(j), int(k)), shape=(3, 2), n_infinite=1)
+    rows = [0, 1]
+    view = s[rows, 0]
+    rows[0] = 2  # the caller re-uses its list for something else
+    got = view[0, 2]
+    if got == (0, 0, 2):
+        return None
+    return _v("C19/view-aliases-callers-index-list",
+              f"view = s[rows, 0] with rows = [0, 1]; after rows[0] = 2 the view's element [0, 2] is s{list(got)} instead of s[0, 0, 2] "
+              "(numpy copies index lists when indexing)")
+
+
 WITNESSES = {
+    "C19/view-aliases-callers-index-list": c19_view_aliases_callers_list,
     "C19/packed-view-evaluates-siblings": c19_packed_view_siblings,
     "C18/one-plus-term": c18_one_plus_term,
     "C09/linear-operator-mode-plain-product": c09_linear_operator_plain_product,
